@@ -168,6 +168,16 @@ def structure(doc_type, nmembers, commissioning="both"):
     od.add_object(C.mkvar("Name", 0x2501, 0, 0x09, "const", default="canopen device"))
     od.add_object(C.mkvar("Blob", 0x2502, 0, 0x0F, "rw", default=bytes.fromhex("0102ff")))
     od.add_object(C.mkvar("Real", 0x2503, 0, 0x08, "rw", default=2.5))
+    # every combination of factor / unit / description (each is optional on its own)
+    for i in range(1, 8):
+        v = C.mkvar("Scaling combo %d" % i, 0x2520 + i, 0, 0x04, "rw", default=i)
+        if i & 1:
+            v.factor = 0.25
+        if i & 2:
+            v.unit = "rpm"
+        if i & 4:
+            v.description = "described %d" % i
+        od.add_object(v)
     # every access type keyword of CiA 306 (rwr / rww: read-write, mappable only as TPDO / RPDO data)
     for i, acc in enumerate(("rwr", "rww", "wo", "const", "ro", "rw")):
         od.add_object(C.mkvar("Access %s" % acc, 0x2510 + i, 0, 0x06, acc, default=None if acc == "wo" else i))
